@@ -19,6 +19,11 @@ ENUMS = [
 ASSUMPTIONS = [
     "crcmod's C implementation is outside the model (tied by C04's exhaustive byte-update comparison and every packed packet here)",
     "the decoder's timestamp_len argument is a non-negative int",
+    "live-object histories (op 620): judged by design, not as defects: assigning tm.pus_tm_sec_header.timestamp (a plain "
+    "attribute of the sub-object) leaves the data length field stale until tm_data is assigned; the telemetry keeps "
+    "references to the caller's bytearrays / header objects; from_composite_fields keeps the caller's data length; "
+    "to_space_packet() omits the secondary header when sec_header_flag was cleared; pack(recalc_crc=False) after a field "
+    "change carries the cached CRC (documented); crc16 between a field change and the next pack is only compared with the model",
 ]
 TRUSTED = []
 ORACLE_LIMIT = {"quick": 6000, "thorough": 40000}
@@ -128,6 +133,9 @@ def _make(p, stamp, src, owned):
         return PusTm(service, subservice, owned.give(stamp, kind)), None
     if path == 7:
         return PusTm.empty(), None
+    if path == 8:
+        w = Service17Tm(apid, subservice, owned.give(stamp, kind))
+        return w.pus_tm, w
     raise RuntimeError("bad path")
 
 
@@ -372,6 +380,8 @@ def _initial_state(a):
         S.update({"service": 17, "msgcnt": 0})
     elif path == 6:
         S.update({"ver": 0, "apid": 0, "count": 0, "msgcnt": 0, "ref": 0, "dest": 0, "src": [], "dlen": 8 + len(stamp)})
+    elif path == 8:
+        S.update({"ver": 0, "count": 0, "msgcnt": 0, "ref": 0, "dest": 0, "src": [], "dlen": 8 + len(stamp), "service": 17})
     elif path == 7:
         S.update({"ver": 0, "apid": 0, "count": 0, "msgcnt": 0, "ref": 0, "dest": 0, "src": [], "dlen": 15, "service": 0,
                   "subservice": 0, "stamp": [0x40, 0, 0, 0, 0, 0, 0]})
@@ -528,7 +538,7 @@ def _hist_params(rng, path=None, n=None, tl=None, kind=None, consistent=True):
         tl = len(b[1]) if rng.random() < 0.95 else rng.choice([255, 256, 512])
     src = pc.rbytes(rng, n) if rng.random() < 0.8 else rng.choice(PATTERNS)(n)
     stamp = pc.rbytes(rng, tl) if rng.random() < 0.8 else rng.choice(PATTERNS)(tl)
-    path = rng.choice([0, 0, 0, 2, 2, 2, 3, 3, 3, 4, 4, 5, 5, 6, 7]) if path is None else path
+    path = rng.choice([0, 0, 0, 2, 2, 2, 3, 3, 3, 4, 4, 5, 5, 6, 7, 8]) if path is None else path
     kind = rng.randrange(2) if kind is None else kind
     ptype, shf, dlen = 0, 1, 8 + tl + n
     if path == 2 and not consistent:
@@ -673,6 +683,12 @@ def hardening_streams(tier, rng):
         cases.append((605, a))
         if big or n != 0:
             cases.append((604, a)); cases.append((603, [_layout_fast(*a[0], a[1], a[2]), [tl]]))
+    if big:                                                      # coarse steps up to the field's limit
+        for n in range(4200, 65520, 251):
+            tl = rng.choice([0, 7, 7, 16])
+            cases.append((605, [pc.rand_tm_args(rng, 1)[0], pc.rbytes(rng, tl), pc.rbytes(rng, n - tl)]))
+            if n % 4 == 0:
+                cases.append((605, [pc.rand_tm_args(rng, 1)[0], pc.rbytes(rng, n - 9), pc.rbytes(rng, 9)]))
     pkt = _layout_fast(3, 25, 1, 1, 1, 0, 0, 0, pc.rbytes(rng, 7), pc.rbytes(rng, 20))
     cases.append((602, [pkt + pc.rbytes(rng, 70000), [7]])); cases.append((603, [pkt + pkt * 40, [7]]))
     for (tl, n) in ((7, 65521), (0, 65528), (65528, 0), (32768, 32760)):
